@@ -146,6 +146,52 @@ pub fn run(ctx: &mut Ctx) -> (&'static str, String, bool) {
     let c = &c;
     let base_rng = ctx.rng.fork(4);
     let thorough = ctx.tier == crate::ctx::Tier::Thorough;
+    let miri = ctx.stage.as_deref() == Some("miri");
+    let (shard, nshards) = ctx.shard;
+    if miri {
+        // Miri costs ~4 orders of magnitude: a structured slice of the same workload, sharded by kind
+        let mut p = Part::new();
+        let mut r = base_rng.fork(77 + shard);
+        for size in [0u8, 1, 3, 4, 5, 63, 64, 255] {
+            for ty in [0u8, 1, 3, 4, 37, 64, 255] {
+                if ((size as u64) * 7 + ty as u64) % nshards != shard {
+                    continue;
+                }
+                for compressed in MODES {
+                    let n = if compressed { size as usize * 4 } else { size as usize };
+                    for l in [4usize, n.saturating_sub(1), n, n + 1] {
+                        let mut buf = r.bytes(l);
+                        if l > 1 {
+                            buf[0] = size;
+                            buf[1] = ty;
+                        }
+                        check_buffer(&buf, compressed, "header-matrix", &mut p, &mut r);
+                    }
+                }
+            }
+        }
+        for (ki, lay) in c.kinds().iter().enumerate() {
+            if (ki as u64) % nshards != shard {
+                continue;
+            }
+            let compressed = ki % 2 == 0;
+            let o = GenOpts { text: TextMode::Mixed, max_list: Some(2), boundary: 4, hostile: false };
+            let Some((_, frame)) = c.ref_frame(&mut r, lay, &o, compressed) else { continue };
+            p.distinct(&(compressed, &frame));
+            check_buffer(&frame, compressed, &format!("valid-{}", lay.name), &mut p, &mut r);
+            for pos in (0..frame.len()).step_by(1 + frame.len() / 10) {
+                for v in [0u8, 0x7f, 0xff] {
+                    let mut m = frame.clone();
+                    m[pos] = v;
+                    check_buffer(&m, compressed, &format!("byte-mutation-{}", lay.name), &mut p, &mut r);
+                }
+            }
+            check_buffer(&frame[..frame.len() - 1], compressed, "truncated", &mut p, &mut r);
+        }
+        p.distinct(&("miri-shard", shard));
+        ctx.merge(p);
+        return ("exploration", "Miri slice: header matrix corners and one reference frame per kind with byte mutations and truncation, sharded by kind".into(), false);
+    }
 
     // ---- (a) every (size, type) header pair ---------------------------------------------------
     let parts: Vec<Part> = (0u32..256)
